@@ -10,7 +10,8 @@ RULE = ("(a) generated programs with non-unit / non-integer start, end and times
         "recurrences (IEEE double, 1e-9), adaptive solver vs the model's Dormand-Prince (20*(atol+rtol*|y|)); (b) closed forms on the real code: "
         "linear decay chain and logistic (SI, frequency-dependent) with random rates, start times and steps: row 0 exactly the initial state, "
         "error ratio on halving the step from 1/8 to 1/16 >= 1.7 (euler) / >= 10 (rk4), adaptive within 50*(atol+rtol*|y|) for four tolerances on a coarse and a "
-        "fine output grid, and the two grids agree at common times; distinct by configuration, non-trivial always")
+        "fine output grid, and the two grids agree at common times; (c) adaptive scenarios: output times 750-2000 time units apart against the closed form, and a short smooth "
+        "importation pulse after a long period with an exactly zero right-hand side against a fine-step RK4 run; distinct by configuration, non-trivial always")
 TRUSTED = ["closed-form solutions of the linear chain and the logistic equation (written in harness/props/c07.py)"]
 ASSUMPTIONS = ["convergence order for non-linear fields and tolerance claims are executed, not proved (DESIGN C07: partial)",
                "explicit-step trajectories that blow up (stiff random models) are compared up to the blow-up only"]
@@ -20,6 +21,7 @@ def payloads(tier, seed):
     out = [{"seed": seed, "index": i, "mode": "corr"} for i in range(n)]
     m = 16 if tier == "quick" else 200
     out += [{"seed": seed, "index": i, "mode": "closed"} for i in range(m)]
+    out += [{"seed": seed, "index": i, "mode": "adaptive_scenarios"} for i in range(8 if tier == "quick" else 120)]
     return out
 
 def build(ops):
@@ -39,7 +41,71 @@ def run(I, solver, **kw):
         raise RuntimeError("run failed: " + str(r.get("err")))
     return np.array(r["outputs"])
 
+def adaptive_scenarios(W, payload):
+    """the adaptive solver where its step-size control is under strain: (a) output times hundreds of time units apart (many internal steps
+    per output, the default `max_step` is 1) against the closed form of a slow linear chain; (b) a model whose right-hand side is exactly
+    zero for a long time and then receives a short smooth importation pulse (the error estimate is exactly 0 before the pulse) against a
+    fine-step RK4 run of the same model"""
+    r = random.Random(f"C07s:{payload['seed']}:{payload['index']}")
+    out = mk_out()
+    try:
+        if payload["index"] % 2 == 0:
+            a = r.choice([Fr(1, 500), Fr(1, 300), Fr(1, 1000)]); b = r.choice([Fr(1, 400), Fr(1, 800)])
+            t1, dt = r.choice([(3000, 1000), (4000, 2000), (1500, 750)])
+            ops = [{"op": "model", "t0": "0", "t1": str(t1), "dt": str(dt), "comps": ["A", "B", "C"], "inf": ["A"]},
+                   {"op": "init_pop", "dist": [["A", {"c": "1000"}], ["B", {"c": "10"}]]},
+                   {"op": "flow", "kind": "transition", "name": "ab", "param": {"c": q(a)}, "src": "A", "dst": "B"},
+                   {"op": "flow", "kind": "transition", "name": "bc", "param": {"c": q(b)}, "src": "B", "dst": "C"}]
+            bump(out, "scenario:long_output_intervals")
+            I_ = build(ops)
+            tol = r.choice([None, "7/500000"])
+            kw = {} if tol is None else {"rtol": tol, "atol": tol}
+            o = run(I_, "odeint", **kw)
+            out["evals"] += 1
+            tt = np.array(I_.model.times, dtype=float)
+            fa, fb = float(a), float(b)
+            A = 1000 * np.exp(-fa * tt)
+            B = 10 * np.exp(-fb * tt) + 1000 * fa / (fb - fa) * (np.exp(-fa * tt) - np.exp(-fb * tt)) if abs(fa - fb) > 1e-12 else (10 + 1000 * fa * tt) * np.exp(-fa * tt)
+            ex = np.stack([A, B, 1010 - A - B], axis=1)
+            tv = 1.4e-4 if tol is None else float(Fr(tol))
+            # thousands of steps per output: the global error may accumulate; 200 x the per-step tolerance is still far below the seeded defects (errors of tens)
+            lim = 200 * (tv + tv * np.abs(ex))
+            out["cases"].append(f"long:{a}:{b}:{t1}:{dt}:{tol}")
+            if not np.all(np.isfinite(o)) or np.any(np.abs(o - ex) > lim):
+                fail(out, "adaptive solver is far from the exact solution when the output times are hundreds of time units apart", "c07", payload,
+                     got=o.tolist(), exact=ex.tolist(), tolerance=tol, program=ops)
+        else:
+            c = r.choice([55, 60, 70]); w = r.choice([4, 5, 8]); hgt = r.choice(["8", "5", "12"])
+            pts_x = [{"c": "0"}, {"c": str(c - w)}, {"c": str(c)}, {"c": str(c + w)}, {"c": "120"}]
+            pts_y = [{"c": "0"}, {"c": "0"}, {"c": hgt}, {"c": "0"}, {"c": "0"}]
+            ops = [{"op": "model", "t0": "0", "t1": "120", "dt": r.choice(["120", "60", "40"]), "comps": ["X", "Y"], "inf": ["X"]},
+                   {"op": "init_pop", "dist": [["X", {"c": "0"}], ["Y", {"c": "0"}]]},
+                   {"op": "flow", "kind": "import", "name": "pulse", "param": {"sig": [{"t": 1}, pts_x, pts_y, {"c": "8"}]}, "dst": "X", "split": False},
+                   {"op": "flow", "kind": "transition", "name": "xy", "param": {"c": "1/50"}, "src": "X", "dst": "Y"}]
+            bump(out, "scenario:zero_then_pulse")
+            I_ = build(ops)
+            o = run(I_, "odeint")
+            out["evals"] += 1
+            fine = [dict(op) for op in ops]; fine[0] = dict(fine[0], dt="1/8")
+            I2 = build(fine)
+            o2 = run(I2, "rk4")
+            t_c = np.array(I_.model.times, dtype=float); t_f = np.array(I2.model.times, dtype=float)
+            idx = [int(np.argmin(np.abs(t_f - t))) for t in t_c]
+            ref = o2[idx]
+            tv = 1.4e-4
+            lim = 200 * (tv + tv * np.abs(ref))
+            out["cases"].append(f"pulse:{c}:{w}:{hgt}")
+            if not np.all(np.isfinite(o)) or np.any(np.abs(o - ref) > lim):
+                fail(out, "adaptive solver misses a short importation pulse that follows a long period in which the right-hand side is exactly zero", "c07", payload,
+                     got=o.tolist(), fine_rk4=ref.tolist(), program=ops)
+    except RuntimeError as e:
+        bump(out, "scenario_infra:" + str(e)[:60])
+    return out
+
+
 def task(W, payload):
+    if payload["mode"] == "adaptive_scenarios":
+        return adaptive_scenarios(W, payload)
     r = random.Random(f"C07:{payload['mode']}:{payload['seed']}:{payload['index']}")
     if payload["mode"] == "corr":
         prog = Gen(r, Opts(max_strats=2, max_flows=5, allow_requests=False, allow_computed=False, max_steps=6)).program()
